@@ -76,6 +76,17 @@ def showOptRat : Option Rat → String
   | none => "none"
   | some q => showRat q
 
+def showGuard : RngGuard → String
+  | .cdftSSR => "cdftSSR" | .isimipImpute => "isimipImpute" | .isimipLower => "isimipLower" | .isimipUpper => "isimipUpper"
+  | .hurdleRandomization => "hurdleRandomization" | .censoredModel => "censoredModel"
+
+/-- the functions a program can call (transitively; `callWin` is followed by the harness through the inner configuration) -/
+def calledFns (c : Cfg) : Nat → List Stmt → List Fn
+  | 0, _ => []
+  | _ + 1, [] => []
+  | f + 1, .call fn _ _ :: r => fn :: (calledFns c f (body c fn) ++ calledFns c f r)
+  | f + 1, _ :: r => calledFns c f r
+
 def step (line : String) : String :=
   match line.splitOn " " with
   -- the distinct (function.parameter=provenance) items of the calls of a configuration, sorted; then `safe`, `resultOwn`
@@ -96,6 +107,22 @@ def step (line : String) : String :=
           let v := Model.Instance.view k j
           s!"{match x with | none => "ok" | some e => "error:" ++ e} rw={showWin j.derived.runningWindow} yr={showWin j.derived.yearWindow} cdf={showOptRat j.settings.cdfThreshold} view={showWin v.runningWindow},{showWin v.yearWindow}"
       | _, _, _, _, _, _, _, _, _, _, _, _ => "bad-op"
+  -- what a direct `apply_location` reads (no `__attrs_post_init__`): view <Kind> rwMode yrMode rw0 yr0
+  | ["view", k, rwm, yrm, rw0, yr0] =>
+      match kind? k, bool? rwm, bool? yrm, win? rw0, win? yr0 with
+      | some k, some rwm, some yrm, some rw0, some yr0 =>
+          let i : Model.Instance.Inst Unit := ⟨⟨rwm, 1, 1, yrm, 1, 1, none, false, false, ()⟩, ⟨rw0, yr0⟩⟩
+          let v := Model.Instance.view k (Model.Instance.applyLocation (fun _ _ (_ : Unit) (_ : Unit) => (.ok () : Except String Unit)) k i () ()).1
+          s!"view={showWin v.runningWindow},{showWin v.yearWindow}"
+      | _, _, _, _, _ => "bad-op"
+  -- the (function:guard) pairs of the `draw` statements reachable from the entry of a configuration, sorted: draws <cfg tokens>
+  | "draws" :: toks => match cfg? toks with
+      | some c =>
+          let fns := calledFns c 60 (entryProg c)
+          showList id (sortDedup ((fns.flatMap (fun fn => drawsOf fn (body c fn))).map (fun p => s!"{p.1.py}:{showGuard p.2}")))
+      | none => "bad-op"
+  -- the table of draw sites: source function | callee | guard | model function
+  | ["rngsites"] => ";".intercalate (rngSitesJ.map (fun x => s!"{x.1.fn}|{x.1.callee}|{showGuard x.2.1}|{x.2.2.py}"))
   | _ => "bad-op"
 
 def main : IO Unit := do
